@@ -46,7 +46,8 @@ def programs(check, tier, n=None):
                                      allowed=progs.chain_set(table, ("both", "7", "7g") if family == "7" else ("both", "5")),
                                      exhaustive=True, maxchoices=5 if tier == "quick" else 6, timeout=2400)
             th, bh = syntax.generate(check, family, rootcat="toplast", rootmax=1, num=20, seed=core.seed() + 9, depth=2)
-            for tab, bs, lay in ((table, behs, "random"), (tc, bc, "none"), (th, bh, "random")):
+            tn, bn = syntax.generate(check, family, rootcat="nsonly", rootmax=2, num=40, seed=core.seed() + 9, depth=3)
+            for tab, bs, lay in ((table, behs, "random"), (tc, bc, "none"), (th, bh, "random"), (tn, bn, "random")):
                 ex = progs.expand_all(tab, bs, core.seed(), [lay])
                 for e in ex:
                     if e.get("skip") or ({"heredoc/empty", "nowdoc/empty"} & set(e["used"])):
